@@ -122,7 +122,7 @@ func TestLbvcBoundedCompaction(t *testing.T) {
 					if err != nil {
 						t.Skip(err)
 					}
-					lg, err := New(Options{Path: dir, MaxSegmentBytes: segBytes, Compact: true, CompactMaxGoroutines: nw})
+					lg, err := New(Options{Path: dir, MaxSegmentBytes: segBytes, Compact: true, CompactMaxGoroutines: nw, HWCheckpointInterval: time.Hour})
 					if err != nil {
 						os.RemoveAll(dir)
 						t.Skip(err)
